@@ -2,7 +2,9 @@ package props
 
 import (
 	"fmt"
+	"hash/fnv"
 	"strings"
+	"time"
 
 	"pgregory.net/rapid"
 
@@ -27,9 +29,15 @@ func (w *World) Dir() *core.Dir {
 	for i := range w.Profs {
 		d.Put(w.Profs[i].File, w.Profs[i].Render())
 	}
+	h := fnv.New32a()
 	for i := range w.Ents {
-		d.Put(w.Ents[i].File, w.Ents[i].Render())
+		data := w.Ents[i].Render()
+		h.Write(data)
+		d.Put(w.Ents[i].File, data)
 	}
+	// one tick of the logical file clock is a second, or a fraction of one (a pure function of the configs,
+	// so that every stateful check sees modification times that differ by less than a second, too)
+	d.Unit = []time.Duration{time.Second, time.Second, 250 * time.Millisecond, time.Millisecond, 3 * time.Microsecond}[h.Sum32()%5]
 	return d
 }
 
